@@ -8,6 +8,7 @@ histories with valid, unchecked-but-legal and refused operations, (b) every
 family at small and realistic sizes, both formula classes, followed by
 chains of transformations, with the documented variable count as oracle.
 """
+import os
 import random
 
 import cnfgen
@@ -241,6 +242,15 @@ def generate(rng, config):
     if config == "family":
         name = rng.choice(FAMILY_NAMES)
         scale = rng.choice([1, 1, 2, 2, 3])
+        if os.environ.get("VERIF_TIER") == "thorough" and \
+                rng.random() < 0.15 and name not in ("cpls", "pitfall",
+                                                     "stone", "sparsestone",
+                                                     "kclique", "subgraph",
+                                                     "cliquecoloring",
+                                                     "domset", "ramlb",
+                                                     "iso", "auto", "op",
+                                                     "gop", "count", "ram"):
+            scale = 4
         gen, _, _, opb_ok = registry.FAMILIES[name]
         klass = "OPB" if (opb_ok and rng.random() < 0.35) else "CNF"
         chain = []
